@@ -23,7 +23,7 @@ class Constant(ASTNode):
         elif isinstance(self.value, (dt.date, dt.datetime, dt.timedelta)):
             out_str = "'{}'".format(str(self.value).replace("'", "''"))
         elif isinstance(self.value, float):
-            out_str = repr(self.value)
+            out_str = str(self.value)
             if 'e' in out_str:
                 # exponent notation is not a number for the parser: 1e-07 -> 0.0000001
                 out_str = format(Decimal(out_str), 'f')
